@@ -257,6 +257,33 @@ pub fn sweep(out: &mut dyn Write, seed: u64, o: &Opts) {
         }
         hist.insert("capacity_gate_cases".into(), n_gate);
     }
+    // 0e. long messages whose optimal plan has very many segments (a few bytes >= 128, then a few digits, repeated;
+    // alternating short runs of letter classes): whatever is done once per segment on "the rest of the message"
+    // adds up to quadratic work here (C19 counts all planning done for one message), and the segment bookkeeping
+    // of planner and encoder is exercised hundreds of times in one run
+    if o.long_inputs {
+        for (a, b) in [(2usize, 4usize), (3, 6), (4, 8), (1, 2)] {
+            for total in [600usize, 1200, 1746] {
+                let mut d: Vec<u8> = vec![];
+                let mut k = 0usize;
+                while d.len() + a + b <= total {
+                    for i in 0..a { d.push(0x80 + ((k * 7 + i * 13) % 0x7f) as u8); }
+                    for i in 0..b { d.push(b'0' + ((k + i) % 10) as u8); }
+                    k += 1;
+                }
+                for mask in [default_mask(), (1u64 << 48) - 1] {
+                    let c = Case { data: d.clone(), modes: 63, mask, macros: true, fnc1: false, eci: None };
+                    emit_case(out, o, &c, &mut hist);
+                }
+            }
+        }
+        for run in [3usize, 5, 7] {
+            let d: Vec<u8> = (0..1500).map(|i| { let r = (i / run) % 3; let j = (i % 26) as u8; if r == 0 { b'A' + j } else if r == 1 { b'a' + j } else { b'0' + j % 10 } }).collect();
+            let c = Case { data: d, modes: 63, mask: (1u64 << 48) - 1, macros: true, fnc1: false, eci: None };
+            emit_case(out, o, &c, &mut hist);
+        }
+        note(&mut hist, "many_segment_long_inputs");
+    }
     // 1. exhaustive short strings over the class alphabet x sampled configurations
     if o.short_len > 0 {
         let strs = short_strings(o.short_len);
@@ -636,6 +663,57 @@ pub fn gen_badplans(out: &mut dyn Write, seed: u64, thorough: bool) {
 /// planner model vs implementation: `optimize(data, written, Ascii, list, modes)` through the hook,
 /// with the permutation each `sort_unstable_by_key` applied (the model does not fix the order of
 /// equal-cost plans; it checks the permutation sorts its own candidate list and follows it)
+/// Search mode of C10 (run only when the planner correspondence is broken): many short and medium messages over
+/// printable alphabets in the configurations people use (all modes, default / full list; some mode subsets and
+/// single-size lists), each judged by the Lean driver against the planner *model* run with its own sort
+/// (request `optdiff`): a refusal or a larger symbol than the model's plan needs is a failing input, and the
+/// answer carries the model's stream as the witness.
+pub fn gen_optdiff(out: &mut dyn Write, seed: u64, thorough: bool) {
+    let mut rng = Rng::new(seed ^ 0x10D1FF);
+    let mut hist: BTreeMap<String, usize> = BTreeMap::new();
+    let n: usize = std::env::var("VERIF_C10D_N").ok().and_then(|v| v.parse().ok()).unwrap_or(if thorough { 2_000_000 } else { 600_000 });
+    let alphabets: [&[u8]; 5] = [
+        b"ABCDEFGHIJKLMNOPQRSTUVWXYZabcdefghijklmnopqrstuvwxyz0123456789",
+        b"ABCDEFGHIJKLMNOPQRSTUVWXYZabcdefghijklmnopqrstuvwxyz0123456789 .,-/:*>\r",
+        b"ABCDEFGHIJKLMNOPQRSTUVWXYZ0123456789 ",
+        b"abcdefghijklmnopqrstuvwxyz0123456789 ",
+        b" !\"#$%&'()*+,-./0123456789:;<=>?@ABCDEFGHIJKLMNOPQRSTUVWXYZ[\\]^_`abcdefghijklmnopqrstuvwxyz{|}~",
+    ];
+    for k in 0..n {
+        let len = match k % 8 { 0 => 2 + rng.below(8), 7 => 40 + rng.below(40), _ => 8 + rng.below(32) };
+        let d: Vec<u8> = if k % 6 == 5 {
+            gen_data(&mut rng, len, &mut hist)
+        } else {
+            // runs of one class: the planner's decisions depend on run lengths
+            let al = alphabets[rng.below(alphabets.len())];
+            let mut v = Vec::with_capacity(len);
+            while v.len() < len {
+                let run = 1 + rng.below(9);
+                let class = rng.below(4);
+                for _ in 0..run {
+                    if v.len() >= len { break; }
+                    let ch = loop {
+                        let c = al[rng.below(al.len())];
+                        let ok = match class { 0 => c.is_ascii_uppercase(), 1 => c.is_ascii_lowercase(), 2 => c.is_ascii_digit(), _ => true };
+                        if ok || !al.iter().any(|x| match class { 0 => x.is_ascii_uppercase(), 1 => x.is_ascii_lowercase(), 2 => x.is_ascii_digit(), _ => true }) { break c; }
+                    };
+                    v.push(ch);
+                }
+            }
+            v
+        };
+        let modes: u8 = if rng.chance(3, 4) { 63 } else { gen_modes(&mut rng) };
+        let mask = match rng.below(8) { 0 => (1u64 << 48) - 1, 1 => tight_single(&mut rng, d.len()), _ => default_mask() };
+        let c = Case { data: d, modes, mask, macros: true, fnc1: false, eci: None };
+        // the plain entry point only (no wrappers, no error codewords): this loop has to be fast
+        let (d2, m2, l2) = (c.data.clone(), c.modes, c.mask);
+        let r = guarded(move || data::encode_data(&d2, &list_from_mask(l2), None, modes_from_bits(m2), true));
+        let impl_ans = match r { Ok(Ok((_, size))) => format!("s{}", size_index(size)), Ok(Err(_)) => "err".to_string(), Err(_) => continue };
+        writeln!(out, "O optdiff {} {} 1 0 {} {} => ok", c.modes, mask_hex(c.mask), if c.data.is_empty() { "-".to_string() } else { hex(&c.data) }, impl_ans).unwrap();
+    }
+    writeln!(out, "# optdiff_cases {}", n).unwrap();
+}
+
 pub fn gen_planner(out: &mut dyn Write, seed: u64, thorough: bool) {
     use datamatrix::verif_hooks as vh;
     let mut rng = Rng::new(seed ^ 0x18A);
